@@ -1325,6 +1325,23 @@ void probePolyLine(ASerializable* o, Desc& d)
   d.VD("last", l->getPoint(l->getNPoints() - 1));
 }
 
+// a polygon element on its own (PolyElem has its own neutral-file tag): a closed line with optional vertical limits
+ASerializable* makePolyElem(Rng& r)
+{
+  PolyLine2D l = randomLine(r);
+  VectorDouble x = l.getX(), y = l.getY();
+  while (x.size() < 3) { x.push_back(r.uniform(-10., 10.)); y.push_back(r.uniform(-10., 10.)); }
+  double zmin = r.chance(0.5) ? TEST : r.uniform(-5., 0.), zmax = r.chance(0.5) ? TEST : r.uniform(1., 5.);
+  return new PolyElem(x, y, zmin, zmax);
+}
+void describePolyElem(const ASerializable* o, Desc& d)
+{
+  const PolyElem* e = dynamic_cast<const PolyElem*>(o);
+  if (!e) { d.S("class", "not a PolyElem"); return; }
+  describeLine(*e, "", d);
+  d.D("zmin", e->getZmin());
+  d.D("zmax", e->getZmax());
+}
 ASerializable* makeFaults(Rng& r)
 {
   Faults* f = new Faults();
@@ -2123,6 +2140,7 @@ std::vector<ClassAdapter> buildAdapters()
   add("RuleShift", makeRuleShift, [] { return (ASerializable*)new RuleShift(); }, nullptr, describeRule, consistentRule, probeRule);
   add("RuleShadow", makeRuleShadow, [] { return (ASerializable*)new RuleShadow(); }, nullptr, describeRule, consistentRule, probeRule);
   add("MeshSpherical", makeMeshSpherical, [] { return (ASerializable*)new MeshSpherical(); }, nfLoader<MeshSpherical>(), describeMesh, consistentMesh, probeMesh);
+  add("PolyElem", makePolyElem, [] { return (ASerializable*)new PolyElem(); }, nfLoader<PolyElem>(), describePolyElem, consistentPolyLine, probePolyLine);
   add("Faults", makeFaults, [] { return (ASerializable*)new Faults(); }, nfLoader<Faults>(), describeFaults, consistentFaults, probeFaults);
   add("FracEnviron", makeFracEnviron, [] { return (ASerializable*)new FracEnviron(); }, nfLoader<FracEnviron>(), describeFrac, consistentFrac, probeFrac);
   return v;
